@@ -46,6 +46,9 @@ CHECKS = {
     "C14": dict(cat="exploration", tech="differential monitor with unique row ids on both k-way merge implementations + planted-inversion rejection monitor",
                 text="Outputs must be a sorted permutation of the inputs for every chunk size; unsorted inputs must be rejected by the table merger.",
                 note="inputs written by the harness with pandas/pyarrow", ref="5/C14"),
+    "C15": dict(cat="exploration", tech="differential monitor on picked_protein() and on targets/decoys.proteins files: tokens mapped through the real peptide_map, pairs keyed by member sets, dictionary max per pair; decoration-invariance metamorphic check; protein q-values vs C01 formula",
+                text="Generated databases (shared / subset / equal-set proteins, anagrams, shuffled FASTA orders) and decorated peptide tables; every entry is traced to a candidate peptide row.",
+                note="peptide -> group lookup trusted to C16; target-only FASTA not judged here", ref="5/C15"),
     "C16": dict(cat="exploration", tech="invariant monitor on read_fasta maps: exhaustive small incidence matrices, all entry orders, PYTHONHASHSEED sweep in fresh interpreters",
                 text="The statement's grouping conditions are checked directly on every incidence matrix up to 4x4 (5x4 thorough) and random structures; canonical dumps compared across entry orders and hash seeds.",
                 note="group membership parsed from group names", ref="5/C16"),
